@@ -379,8 +379,42 @@ def tableau_group():
     return obs, {"paths": len(TEXTBOOK)}
 
 
+def config_case():
+    """a propagated orbit carries `propagator.copy()`: the copy must be configured like the original (step, bodies, method,
+    frame and the tolerance of the adaptive methods), otherwise propagating a returned orbit further silently integrates with
+    other settings than the ones asked for"""
+    ins = [("tol", "pos"), ("h", "pos")]
+
+    def run(env, v):
+        import importlib
+        kn = env.mod("beyond.propagators.keplernum") if env.symbolic else importlib.import_module("beyond.propagators.keplernum")
+        if env.symbolic:
+            from symx.stubs import SymTD
+            body = object()
+            p = kn.KeplerNum(SymTD(v["h"]), [body], method="dopri54", frame="MOD", tol=v["tol"])
+            q = p.copy()
+            same = q.bodies == [body] and q.method == "dopri54" and q.frame == "MOD" and q is not p
+            return {"tol": q.tol, "step": q.step.secs, "rest": Holds(SB(z3.BoolVal(bool(same))))}
+        from datetime import timedelta
+        from beyond.orbits import Orbit
+        from beyond.dates import Date
+        from beyond.env.solarsystem import get_body
+        tol, h = float(v["tol"]) * 1e-6, 30.0 + float(v["h"]) % 60
+        p = kn.KeplerNum(timedelta(seconds=h), get_body("Earth"), method="dopri54", tol=tol)
+        orb = Orbit([7e6, 0, 0, 0, 7.5e3, 0], Date(2020, 1, 1), "cartesian", "EME2000", p)
+        q = orb.propagate(timedelta(seconds=300)).propagator         # public API: what a chained propagation will use
+        same = q.method == "dopri54" and [b.name for b in q.bodies] == ["Earth"] and q is not p
+        return {"tol": q.tol / tol * float(v["tol"]), "step": q.step.total_seconds() / h * float(v["h"]), "rest": Holds(bool(same))}
+
+    def ref(env, v, out):
+        return {"tol": v["tol"], "step": v["h"], "rest": None}
+    return Case("config/copy", ins, run, ref, timeout=30, tol=1e-12, abs_tol=0,
+                desc="KeplerNum.copy() -- the propagator handed to every propagated orbit -- keeps step, bodies, method, frame and "
+                     "the tolerance of the adaptive step control")
+
+
 def all_cases(tier):
-    return [schema_case(m) for m in ("euler", "rk4", "rkf54", "dopri54")] + [adapt_case("rkf54"), adapt_case("dopri54"), field_case()]
+    return [schema_case(m) for m in ("euler", "rk4", "rkf54", "dopri54")] + [adapt_case("rkf54"), adapt_case("dopri54"), field_case(), config_case()]
 
 
 def groups(tier):
